@@ -227,8 +227,8 @@ def lintOverlapping (g : Cfg) : List Diag :=
     if cn.funcs.length > 1 && cn.funcs.contains i then
       match cn.labels with
       | l :: _ =>
-        some (lintDiag "NodeInManyFunctions" l.tok.range l.tok.file l.tok.text
-          (if cn.labels.length > 1 then cn.labels.map fun a => (a.tok.range, a.tok.file) else []))
+        -- reported at the label written first (the labels are kept in source order)
+        some (lintDiag "NodeInManyFunctions" l.tok.range l.tok.file l.tok.text)
       | [] => none
     else none
 
